@@ -60,6 +60,12 @@ def enumerate_cases(tier: str):
         for parked in (1, 2):
             for senders in ([[0, True]], [[0, True], [0, True]], [[1, True], [3, True]], [[0, False], [0, True]]):
                 yield {"kind": "race", "config": {"version": version, "parked": parked, "other_parked": 0, "senders": senders}}
+    # destinations registered with every kind of version text
+    for version in ("1.5", "2.0", "2.2"):
+        for text in ("", "unknown", "2.0.0-beta", "1.4", "2.2.0", "x.y", " ", "2", "v2.1"):
+            ops = [["send", [11, 1, 1, 0, 3, "0"], None], ["send", [2, 1, 1, 1, 23, "1"], None], ["send", [1, 1, 1, 0, 3, "1"], None], ["send", [11, 255, 3, 0, 13, ""], None],
+                   ["rx", f"11;255;3;0;{32 if version == '2.2' else 22};7\n"], ["rx", f"2;255;3;0;{32 if version == '2.2' else 22};7\n"]]
+            yield {"kind": "hist", "version": version, "node_versions": [text, text, text], "ops": ops}
     # two commands held for a sleeping node, one event of every kind, then the wake (twice): both are still owed
     for version in ("2.0", "2.1", "2.2"):
         wake = ["rx", f"11;255;3;0;{32 if version == '2.2' else 22};7\n"]
@@ -146,7 +152,7 @@ def _hist_strategy():
     send_internal = st.builds(lambda n, t, p, b: ["send", [n, 255, 3, 0, t, p], b], node, st.sampled_from((19, 19, 13, 18, 24, 4)), st.sampled_from(("", "1")), st.sampled_from((None, None, True, False)))
     wake = st.builds(lambda n, t: ["rx", f"{n};255;3;0;{t};7\n"], node, st.sampled_from((22, 32)))
     other = st.one_of(
-        st.builds(lambda n: ["rx", f"{n};255;0;0;17;2.0\n"], node),
+        st.builds(lambda n, v: ["rx", f"{n};255;0;0;17;{v}\n"], node, st.sampled_from(("2.0", "2.0", "", "unknown", "2.0.0-beta", "1.4", "2.2.0"))),
         st.builds(lambda n, c: ["rx", f"{n};{c};0;0;3;relay\n"], node, st.sampled_from((1, 2, 12))),
         st.builds(lambda n, c, t, v: ["rx", f"{n};{c};1;0;{t};{v}\n"], node, st.sampled_from((1, 2, 12, 9)), st.sampled_from((3, 23)), st.sampled_from(("0", "1"))),
         st.builds(lambda n, c, t: ["rx", f"{n};{c};2;0;{t};\n"], node, st.sampled_from((1, 2, 12, 9)), st.sampled_from((3, 23))),
@@ -159,6 +165,8 @@ def _hist_strategy():
         {
             "kind": st.just("hist"),
             "version": gen.versions_any,
+            # the version text each destination presented itself with (free text: never validated)
+            "node_versions": st.lists(st.sampled_from(("2.0", "1.4", "", "unknown", "2.0.0-beta", "2.2.0", "x.y", "1.5.1")), min_size=3, max_size=3),
             "ops": st.lists(gen.weighted((4, send), (3, send_set), (2, send_req), (2, send_internal), (2, wake), (3, other), (1, events)), min_size=6, max_size=25),
         }
     )
@@ -170,9 +178,10 @@ def _run_hist(case: dict) -> Outcome:
 
     async def go() -> Outcome | None:
         gateway, transport = env.make_gateway(case["version"])
-        env.install_registry(gateway.nodes, {"1": {"children": {"1": {"child_type": 3}}},
-                                            "11": {"sleeping": True, "children": {"1": {"child_type": 3, "values": {"3": "1", "23": "0"}}, "2": {"child_type": 3}, "12": {"child_type": 3}}},
-                                            "2": {"sleeping": True, "children": {"1": {"child_type": 3, "values": {"23": "1"}}}}})
+        v1, v11, v2 = case.get("node_versions") or ("1.4", "1.4", "1.4")
+        env.install_registry(gateway.nodes, {"1": {"protocol_version": v1, "children": {"1": {"child_type": 3}}},
+                                            "11": {"protocol_version": v11, "sleeping": True, "children": {"1": {"child_type": 3, "values": {"3": "1", "23": "0"}}, "2": {"child_type": 3}, "12": {"child_type": 3}}},
+                                            "2": {"protocol_version": v2, "sleeping": True, "children": {"1": {"child_type": 3, "values": {"23": "1"}}}}})
         owed: dict[int, dict] = {}  # node -> {key: line}; set commands keep the latest per (child, type)
 
         async def expect_release(node: int, wrote: list[str], where: str) -> Outcome | None:
